@@ -20,19 +20,27 @@ type FieldDescriptor struct {
 	Constraints Constraints `json:"constraints"`
 }
 
-func (d *FieldDescriptor) cast() string {
+// castOk returns the type the field is casted to when it is indexed
+// or searched, ok is false if the field has no such type
+func (d *FieldDescriptor) castOk() (cast string, ok bool) {
 	switch d.Type {
 	case "int", "int8", "int16", "int32", "int64", "time.Time":
-		return "int64"
+		return "int64", true
 	case "uint", "uint8", "uint16", "uint32", "uint64":
-		return "uint64"
+		return "uint64", true
 	case "float32", "float64":
-		return "float64"
+		return "float64", true
 	case "string":
-		return d.Type
-	default:
-		panic(fmt.Sprintf("unkwnown type to cast %s", d.Type))
+		return d.Type, true
 	}
+	return "", false
+}
+
+func (d *FieldDescriptor) cast() string {
+	if cast, ok := d.castOk(); ok {
+		return cast
+	}
+	panic(fmt.Sprintf("unkwnown type to cast %s", d.Type))
 }
 
 func (d *FieldDescriptor) Transform(o interface{}) {
